@@ -179,7 +179,7 @@ fn all_acts(prog: &Prog) -> Vec<&Act> {
 }
 
 fn fail_ids(c: &Case) -> Vec<u16> {
-    let mut v: Vec<u16> = all_acts(c.prog).iter().filter(|a| matches!(a.op, Op::Src | Op::AndThen | Op::OrElse | Op::Then | Op::Or | Op::ThenV | Op::ThenF | Op::Filter | Op::ThenB)).map(|a| a.id).collect();
+    let mut v: Vec<u16> = all_acts(c.prog).iter().filter(|a| matches!(a.op, Op::Src | Op::SrcAwait | Op::ThenW | Op::AndThen | Op::OrElse | Op::Then | Op::Or | Op::ThenV | Op::ThenF | Op::Filter | Op::ThenB)).map(|a| a.id).collect();
     if c.hk == Some(HK::AndThen) {
         v.push(c.prog.handler.as_ref().unwrap().id);
     }
@@ -187,7 +187,7 @@ fn fail_ids(c: &Case) -> Vec<u16> {
 }
 fn gateable(c: &Case, a: &Act) -> bool {
     if c.kind.is_async() {
-        matches!(a.op, Op::Src | Op::AndThen | Op::OrElse | Op::Then | Op::ThenV | Op::ThenF)
+        matches!(a.op, Op::Src | Op::SrcAwait | Op::ThenW | Op::AndThen | Op::OrElse | Op::Then | Op::ThenV | Op::ThenF)
     } else {
         // a hoisted initial value is evaluated by the caller in the capture prefix: gating it would
         // (correctly) stop the whole step, not one branch
@@ -818,7 +818,7 @@ impl<'a> Engine<'a> {
                     for a in all_acts(c.prog) {
                         if a.id != 0 {
                             positions.push((a.id, PANIC));
-                            if !matches!(a.op, Op::Src | Op::Or) {
+                            if !matches!(a.op, Op::Src | Op::SrcAwait | Op::Or) {
                                 positions.push((a.id, PANIC_EVAL));
                             }
                         }
